@@ -461,13 +461,14 @@ impl Sys for C18 {
                 Out::Val(Some(h)) => match sess.handle(&h) {
                     Some(SV::L(items)) => {
                         let pre = format!("{}/", s.dir.to_string_lossy());
-                        let v: Vec<String> = items
+                        let mut v: Vec<String> = items
                             .iter()
                             .map(|x| match x {
                                 SV::S(p) => p.strip_prefix(&pre).unwrap_or(p).to_string(),
                                 o => format!("{:?}", o),
                             })
                             .collect();
+                        v.sort(); // the order of the listing is not part of the property
                         Out::Val(Some(v.join("\n")))
                     }
                     o => Out::Other(format!("not an array: {:?}", o)),
